@@ -41,7 +41,7 @@ EmptyCfg == [budget |-> 0, maxiter |-> 0, ktol |-> 0, ntry |-> 0, nfinal |-> 0,
              accel |-> FALSE, accelsteps |-> 0, completepoll |-> FALSE,
              skippoll |-> FALSE, locked |-> FALSE, gnum |-> 0, gmult |-> 0,
              kcap |-> 0, expand |-> 0, incr |-> 0, stalliters |-> 0, k0 |-> 0,
-             pow2 |-> TRUE, funevalstart |-> 0, minrefit |-> 0]
+             pow2 |-> TRUE, funevalstart |-> 0, minrefit |-> 0, sloppy |-> TRUE]
 
 NoStep == [kind |-> "none", nev |-> 0, dirs |-> {}, rem |-> {}, kb |-> 0,
            hasdirs |-> FALSE]
@@ -62,11 +62,16 @@ S0 == [phase |-> "none", D |-> 1, noise |-> "det", hascons |-> FALSE,
        histNow |-> FALSE, np |-> 0, npolls |-> 0,
        hist |-> <<>>, finished |-> FALSE, msg |-> "",
        faulted |-> FALSE, injected |-> "", finalSeen |-> FALSE, nfinalCalls |-> 0,
-       looping |-> FALSE, ended |-> "", strays |-> 0, uhlInit |-> 0, lastRefitFc |-> -1000000]
+       looping |-> FALSE, ended |-> "", strays |-> 0, uhlInit |-> 0, lastRefitFc |-> -1000000,
+       fit |-> [rfit |-> -2, rtry |-> -1, lenX |-> 0, failed |-> FALSE]]
 
 Pids == {s.calls[i].pid : i \in DOMAIN s.calls}
 Uids == {s.calls[i].uid : i \in DOMAIN s.calls}
 Det  == s.uhl = 0           \* the run treats the target as deterministic
+\* C04 is stated for the default incumbent-update policy (options['sloppy_improvement'] = True:
+\* every positive improvement moves the incumbent); with the option off only sufficient
+\* improvements move it, and "no evaluated point is better" is not claimed
+DefPolicy == s.cfg.sloppy
 
 TInit == l = 1 /\ s = S0 /\ errs = {} /\ verdicts = <<>>
 
@@ -250,7 +255,7 @@ TSearchEnd ==
   /\ IsEv("SearchEnd")
   /\ LET nev == s.step.nev
          succ == Ev.impsuff /\ nev >= 1
-         moved == (Ev.imppos \/ Ev.impsuff) /\ nev >= 1
+         moved == ((Ev.imppos /\ s.cfg.sloppy) \/ Ev.impsuff) /\ nev >= 1
          expInc == IF moved THEN [uid |-> Ev.evuid, yR |-> Ev.evyR] ELSE s.inc
      IN Step([s EXCEPT !.sc = s.sc + 1,
                        !.ss = IF succ THEN s.ss + 1 ELSE s.ss,
@@ -264,7 +269,7 @@ TSearchEnd ==
         \cup Chk(Det => (Ev.incuid = expInc.uid /\ Ev.incyR = expInc.yR),
                  "C04.incumbent_update_rule")
         \cup Chk(Det => Ev.fnewobs, "C04.compares_observation")
-        \cup Chk((Det /\ s.noise = "det") => Ev.incyR = s.minY, "C04.incumbent_is_min")
+        \cup Chk((Det /\ s.noise = "det" /\ DefPolicy) => Ev.incyR = s.minY, "C04.incumbent_is_min")
         \cup Chk(Ev.incuid \in Uids, "C19.hist_x_evaluated")
         \* beyond the listed properties: search scale factor dynamics
         \cup Chk(Ev.sf2 # 9999 /\ Ev.sf2b # 9999 /\
@@ -346,7 +351,7 @@ TPollEnd ==
         \cup Chk(Ev.ovf = NextOverflows(Ev.ovfb, Ev.good, kb, c.kcap), "EXT.mesh_overflow_count")
         \cup Chk(Det => (Ev.incuid = expInc.uid /\ Ev.incyR = expInc.yR),
                  "C04.incumbent_update_rule")
-        \cup Chk((Det /\ s.noise = "det") => Ev.incyR = s.minY, "C04.incumbent_is_min")
+        \cup Chk((Det /\ s.noise = "det" /\ DefPolicy) => Ev.incyR = s.minY, "C04.incumbent_is_min")
         \cup Chk(Ev.incuid \in Uids, "C19.hist_x_evaluated"))
 
 (* ---- history record of one iteration (l.1340-1370) --------------------- *)
@@ -422,7 +427,7 @@ TLoopEnd ==
         \cup Chk(Ev.msg # "other", "C03.msg_known")
         \cup Chk(s.histNow = RecordsHistory(s.polled, Ev.finished), "C19.hist_recorded_iff")
         \cup Chk(np1 <= NonProgressBound(s.ntry), "C03.non_progress_bounded")
-        \cup Chk((Det /\ s.noise = "det") => Ev.incyR = s.minY, "C04.incumbent_is_min")
+        \cup Chk((Det /\ s.noise = "det" /\ DefPolicy) => Ev.incyR = s.minY, "C04.incumbent_is_min")
         \cup Chk(Det => Ev.uequbest, "C19.incumbent_tuple_consistent")
         \* noisy runs: after the history re-evaluation the incumbent tuple is that of a
         \* recorded iterate (the current one, or the earlier iterate it was swapped for)
@@ -483,10 +488,26 @@ THedgeCall ==
         \cup Chk(Ev.minok, "C18.prob_at_least_gamma")
         \cup Chk(Ev.chosen >= 0 /\ Ev.chosen < Ev.nfuns, "C18.chosen_in_range"))
 
+(* A fit attempt.  Inside _robust_gp_fit_ (rfit >= 0) the attempts of one call are numbered   *)
+(* rtry = 0, 1, ...: a retry happens only after a linear-algebra failure, and the training   *)
+(* set it receives is the previous one minus the rows GPTrain!Drops allows (never all of it). *)
 TFitAttempt ==
   /\ IsEv("FitAttempt")
-  /\ Step(s, Chk(Ev.lenX = Ev.lenY /\ (Ev.lenS2 = -1 \/ Ev.lenS2 = Ev.lenX),
-                 "C16.fit_args_consistent"))
+  /\ LET p == s.fit
+         retry == Ev.rfit >= 0 /\ Ev.rfit = p.rfit /\ Ev.rtry >= 1
+         maxdrop == 1 + (p.lenX + 19) \div 20
+         dropped == p.lenX - Ev.lenX
+         dropOK == IF p.rtry <= 0 THEN dropped = 0          \* remove_points_after_tries = 1
+                   ELSE IF p.lenX >= 2 THEN dropped >= 1 /\ dropped <= maxdrop /\ Ev.lenX >= 1
+                   ELSE dropped = 0
+     IN Step([s EXCEPT !.fit = [rfit |-> Ev.rfit, rtry |-> Ev.rtry, lenX |-> Ev.lenX,
+                                failed |-> Ev.outcome = "LinAlgError"]],
+             Chk(Ev.lenX = Ev.lenY /\ (Ev.lenS2 = -1 \/ Ev.lenS2 = Ev.lenX),
+                 "C16.fit_args_consistent")
+        \cup Chk(Ev.lenX >= 1, "C16.fit_set_nonempty")
+        \cup Chk(retry => (p.failed /\ Ev.rtry = p.rtry + 1 /\ Ev.rtry <= 9), "EXT.fit_retry_rule")
+        \cup Chk(retry => dropOK, "EXT.fit_drop_rule")
+        \cup Chk((Ev.rfit >= 0 /\ ~retry) => Ev.rtry = 0, "EXT.fit_retry_rule"))
 
 TObserverError ==
   /\ IsEv("ObserverError")
@@ -543,7 +564,7 @@ TResult ==
         \* deterministic (C04)
         \cup Chk(~noisy => Ev.pid \in Pids, "C04.result_is_evaluated")
         \cup Chk(~noisy => Ev.fvalobs, "C04.fval_is_observed")
-        \cup Chk((~noisy /\ s.noise = "det") => Ev.fvalR = s.minY, "C04.incumbent_is_min")
+        \cup Chk((~noisy /\ s.noise = "det" /\ DefPolicy) => Ev.fvalR = s.minY, "C04.incumbent_is_min")
         \cup Chk(~noisy => Ev.fsdzero, "C04.fsd_zero")
         \cup Chk(~noisy => Ev.ttype = "deterministic", "C04.target_type_det")
         \cup Chk(~noisy => nf = 0 /\ Ev.nvec = 0, "C04.no_final_sampling")
